@@ -136,7 +136,10 @@ def cmd_check(args):
     stats = agg["stats"]
     faults_fired = {k[6:]: v for k, v in sorted(stats.items()) if k.startswith("fault.")}
     probes = {k[6:]: v for k, v in sorted(stats.items()) if k.startswith("probe.")}
-    other_stats = {k: v for k, v in sorted(stats.items()) if not k.startswith(("fault.", "probe."))}
+    attempts = {k[8:]: v for k, v in sorted(stats.items()) if k.startswith("attempt.")}
+    for k in attempts:  # a fault kind that was armed but never fired is reported as 0, not omitted
+        faults_fired.setdefault(k, 0)
+    other_stats = {k: v for k, v in sorted(stats.items()) if not k.startswith(("fault.", "probe.", "attempt."))}
     rate = agg["runs"] / max(wall_batch, 1e-9) * 3600
     doc = {
         "property_id": args.prop, "tier": tier, "seed": seed, "level": sim.level,
@@ -150,6 +153,7 @@ def cmd_check(args):
             "ops_executed": agg["ops"],
             "fault_variants_executed": int(stats.get("variants", 0)),
             "faults_fired": faults_fired,
+            "faults_armed": attempts,
             "reach_probes": probes,
             "counters": other_stats,
             "runs_per_hour": int(rate), "seeds_per_hour": int(rate),
